@@ -50,6 +50,21 @@ def _targets(t: ast.AST, path=()):
         yield from _targets(t.value, path + ("*",))
 
 
+IMPURE_METHODS = {"tell", "read", "readinto", "readline", "readlines", "seek", "write", "truncate", "pop", "popitem", "cread", "creadinto",
+                  "fromfile", "send", "recv", "get_nowait", "random", "normal", "integers", "uniform", "choice", "time", "perf_counter",
+                  "read_subints", "read_subint", "read_subint_pol", "__next__"}
+IMPURE_FUNCTIONS = {"next", "input", "open", "np.fromfile", "time.time", "_read_string"}
+
+
+def is_impure_call(node: ast.AST) -> bool:
+    if not isinstance(node, ast.Call):
+        return False
+    d = dotted(node.func)
+    if d in IMPURE_FUNCTIONS:
+        return True
+    return isinstance(node.func, ast.Attribute) and node.func.attr in IMPURE_METHODS
+
+
 MUTATING_METHODS = {"fill", "sort", "resize", "put", "itemset", "append", "extend", "update", "clear", "pop",
                     "insert", "setfield", "partition"}
 
@@ -70,6 +85,17 @@ class Flow:
         self._collect()
         self._in: dict[int, dict[str, frozenset[int]]] = {}
         self._solve()
+        # evaluation-order ordinals of impure calls (same text): `fp.tell()` before and after a seek are different values
+        self._impure_tok: dict[int, str] = {}
+        groups: dict[str, list[ast.Call]] = {}
+        for sub in ast.walk(fn.node):
+            if is_impure_call(sub):
+                groups.setdefault(" ".join(ast.unparse(sub.func).split()), []).append(sub)
+        for nodes in groups.values():
+            nodes.sort(key=lambda n: (n.lineno, n.col_offset))
+            for k, n in enumerate(nodes):
+                self._impure_tok[id(n)] = str(k)
+        self._in_cycle_cache: dict[int, bool] = {}
 
     # -- definitions ----------------------------------------------------------
     def _add(self, d: Def) -> None:
@@ -258,6 +284,11 @@ class Flow:
         ranks = [i for i, d in enumerate(self.defs) if d.var == name]
         return f"{name}@" + "_".join(str(ranks.index(i)) for i in a)
 
+    def _in_cycle(self, node: int) -> bool:
+        if node not in self._in_cycle_cache:
+            self._in_cycle_cache[node] = node in self.cfg.reachable(node)
+        return self._in_cycle_cache[node]
+
     def _expand(self, new: ast.AST, orig: ast.AST, at: int, depth: int, stop: set[str], root: int) -> ast.AST:
         flow = self
 
@@ -283,13 +314,32 @@ class Flow:
                 d = ds[0]
                 if d.kind != "assign" or d.value is None:
                     return leave(node)
+                # a stateful call substituted for its temporary denotes "the latest execution of call site #k", which is
+                # what the single reaching definition holds; a stale copy (`prev = x` before `x` is read again) is
+                # caught by the version label of `x`
                 sub = flow._expand(clone(d.value), d.value, d.node, depth - 1, stop, root)
                 return sub
+
+            def visit_Call(self, node: ast.Call):  # noqa: N802
+                tok = getattr(node, "_impure_token", None)
+                node = self.generic_visit(node)
+                if tok is not None:
+                    # a stateful call keeps its evaluation-order ordinal, whether it is used in place or through a
+                    # temporary: `fp.tell()` before and after a seek are `fp.tell#0()` and `fp.tell#1()`
+                    f = node.func
+                    if isinstance(f, ast.Attribute):
+                        node.func = ast.copy_location(ast.Attribute(value=f.value, attr=f"{f.attr}#{tok}", ctx=ast.Load()), f)
+                    elif isinstance(f, ast.Name):
+                        node.func = ast.copy_location(ast.Name(id=f"{f.id}#{tok}", ctx=ast.Load()), f)
+                    node._impure_token = None  # type: ignore[attr-defined]
+                return node
 
         # mark comprehension-bound names using the original (which has parents)
         for o, c in zip(ast.walk(orig), ast.walk(new)):
             if isinstance(o, ast.Name) and isinstance(c, ast.Name) and self._bound_in_comprehension(o):
                 c._bound = True  # type: ignore[attr-defined]
+            if isinstance(o, ast.Call) and id(o) in self._impure_tok:
+                c._impure_token = self._impure_tok[id(o)]  # type: ignore[attr-defined]
         out = T().visit(new)
         return ast.fix_missing_locations(out)
 
